@@ -170,6 +170,33 @@ Non-trivial = every case (distinct by file bytes).".into();
         if !ok2 { c.oracle_fail("xrefstm-witness-control", "control file of the F-C02-b witness does not load", json!({"file": hex(&g)})); }
         c.count("witness.xrefstm_unknown_type");
     }
+    // observation (outside the claimed domain, formerly registered as F-C02-c): an object DELETED by an incremental update (its number is marked free in the appended
+    // cross-reference section, ISO 32000-1 7.5.6 / 7.5.4) is still loaded from the older revision: the reader ignores
+    // free entries, so the merge falls back to the older in-use entry (Lean: the `newestEntry` of
+    // Grammar.loadDoc_complete_two_revisions is built from in-use entries only).
+    if let Some(_r) = c.case("deleted_by_update", 0) {
+        let mut f: Vec<u8> = b"%PDF-1.4\n".to_vec();
+        let o1 = f.len(); f.extend_from_slice(b"1 0 obj\n/A\nendobj\n");
+        let o2 = f.len(); f.extend_from_slice(b"2 0 obj\n<< /Type /Catalog >>\nendobj\n");
+        let x1 = f.len();
+        f.extend_from_slice(format!("xref\n0 3\n0000000000 65535 f \n{:010} 00000 n \n{:010} 00000 n \n", o1, o2).as_bytes());
+        f.extend_from_slice(format!("trailer\n<< /Size 3 /Root 2 0 R >>\nstartxref\n{}\n%%EOF\n", x1).as_bytes());
+        let base = f.clone();
+        let x2 = f.len();
+        f.extend_from_slice(b"xref\n0 2\n0000000001 65535 f \n0000000000 00001 f \n");
+        f.extend_from_slice(format!("trailer\n<< /Size 3 /Root 2 0 R /Prev {} >>\nstartxref\n{}\n%%EOF\n", x1, x2).as_bytes());
+        c.corr(format!("load {}", hex_tok(&f)), load_reply(&f));
+        // what the file defines: object 2 only
+        let ok = matches!(guard(|| Document::load_mem(&f)), Ok(Ok(d)) if d.get_object((1, 0)).is_err() && d.get_object((2, 0)).is_ok());
+        // OBSERVATION, not a finding: "cross-reference entries that free an object in a later revision" are outside the
+        // claimed domain of C02 (see the property text) and C07 quantifies over replacing and adding revisions only
+        c.count(if ok { "observation.object_freed_by_update_is_absent" } else { "observation.object_freed_by_update_still_loaded" });
+        // control: the base revision alone defines (and loads) object 1
+        c.corr(format!("load {}", hex_tok(&base)), load_reply(&base));
+        let ok2 = matches!(guard(|| Document::load_mem(&base)), Ok(Ok(d)) if matches!(d.get_object((1, 0)), Ok(Object::Name(n)) if n == b"A"));
+        if !ok2 { c.oracle_fail("deleted-witness-control", "control file of the freed-object observation does not load", json!({"file": hex(&base)})); }
+        c.count("witness.deleted_by_update");
+    }
     for (k, v) in counters { c.count_n(&format!("choice.{}", k), v); }
 }
 
